@@ -2538,7 +2538,7 @@ class Tr:
 
     def find_kernel(self, impl_key, fn_name):
         for kk in self.ctx.kernels:
-            if kk["fn"] != fn_name or "specialize" in kk:
+            if kk["fn"] != fn_name or "specialize" in kk or "fragment" in kk:
                 continue
             if impl_key is None:
                 if kk.get("impl") is None and kk["file"] == self.kern["file"]:
@@ -3207,8 +3207,9 @@ KERNELS += [
 # ---- additions: FRAGMENT kernels — a stretch of consecutive statements inside a storage-reading handler ------------
 # A handler such as the vault's `after_trade` reads its configuration and the chain (storage, queries) and then
 # does arithmetic INLINE.  A fragment kernel ties that inline arithmetic to the model: the kernel entry names the
-# handler (`fn`), the first and the last source line of the stretch by a regular expression each (`start`, `end`:
-# each must match EXACTLY ONE line of the handler's text, else the kernel fails loudly), the variables the stretch
+# handler (`fn`), the first and the last source line of the stretch by a regular expression each (`start`: must
+# match EXACTLY ONE line of the handler's text; `end`: the first line at or after it that matches, plus `end_plus`
+# lines; no match: the kernel fails loudly), the variables the stretch
 # reads from what came before it as typed parameters (`params`: name -> Rust type text, parsed by the ordinary type
 # parser), and the locals whose values are the result (`result`).  The tokens of the selected lines are parsed as
 # one block `{ <lines> }` by the ordinary parser and translated by the ordinary statement rules — nothing in the
@@ -3252,17 +3253,46 @@ def _translate_fragment(self):
     it = f.unique(f.fns, (k.get("impl"), k["fn"]), "fn")
     cfg_keep(it["attrs"], it["line0"])
     sel = {}
-    for which in ("start", "end"):
-        rx = re.compile(fr[which])
-        hits = [ln for ln in range(it["line0"], it["line1"] + 1) if rx.search(f.lines[ln - 1])]
-        if len(hits) != 1:
-            raise U(it["line0"], f"fragment {which} pattern /{fr[which]}/ matches {len(hits)} lines of `{k['fn']}` (exactly one is required)")
-        sel[which] = hits[0]
+    rx = re.compile(fr["start"])
+    hits = [ln for ln in range(it["line0"], it["line1"] + 1) if rx.search(f.lines[ln - 1])]
+    if len(hits) != 1:
+        raise U(it["line0"], f"fragment start pattern /{fr['start']}/ matches {len(hits)} lines of `{k['fn']}` (exactly one is required)")
+    sel["start"] = hits[0]
+    # the end line is the FIRST line at or after the start line that matches `end`
+    rx = re.compile(fr["end"])
+    hits = [ln for ln in range(sel["start"], it["line1"] + 1) if rx.search(f.lines[ln - 1])]
+    if not hits:
+        raise U(sel["start"], f"fragment end pattern /{fr['end']}/ matches no line of `{k['fn']}` at or after the start line")
+    sel["end"] = hits[0]
+    sel["end"] += int(fr.get("end_plus", 0))
     if sel["end"] < sel["start"]:
         raise U(sel["start"], "fragment ends before it starts")
     body_toks = [t for t in f.toks if t.k != "eof" and sel["start"] <= t.line <= sel["end"]]
     if not body_toks:
         raise U(sel["start"], "empty fragment")
+    # `subst`: a place expression of the handler that the stretch only READS (e.g. `env.block.height`,
+    # `pair_info.pair_type`) is named as a parameter: every occurrence of exactly that token sequence is replaced by
+    # the parameter's identifier before parsing (the sequence must occur; a longer path through it, `a.b.c` for a
+    # substituted `a.b`, is refused because the replacement would change its meaning silently)
+    for text, ident in fr.get("subst", []):
+        want = [t.s for t in tokenize(text) if t.k != "eof"]
+        out, i, hits = [], 0, 0
+        while i < len(body_toks):
+            if [t.s for t in body_toks[i:i + len(want)]] == want and not (i > 0 and body_toks[i - 1].s in (".", "::")):
+                nxt = body_toks[i + len(want)] if i + len(want) < len(body_toks) else None
+                if nxt is not None and nxt.s == "." and body_toks[i + len(want) + 1].k == "id" and \
+                        not (i + len(want) + 2 < len(body_toks) and body_toks[i + len(want) + 2].s == "("):
+                    raise U(body_toks[i].line, f"substituted place `{text}` is used as the prefix of a longer field path")
+                out.append(Tok("id", ident, body_toks[i].line))
+                i += len(want)
+                hits += 1
+            else:
+                out.append(body_toks[i])
+                i += 1
+        if not hits:
+            raise U(sel["start"], f"substituted place `{text}` does not occur in the fragment")
+        body_toks = out
+        self.notes.append(f"the place `{text}` read by the stretch is the parameter `{ident}`")
     toks = [Tok("p", "{", sel["start"])] + body_toks + [Tok("p", "}", sel["end"]), Tok("eof", "", sel["end"])]
     ps = Parser(toks)
     blk = ps.block()
@@ -3312,6 +3342,43 @@ def _term_of_with_fragresult(self, e, mode, env, expected=None):
 Tr.translate = _translate_fragment
 Tr.term_of = _term_of_with_fragresult
 
+# `std::cmp::min(a, b)` / `std::cmp::max(a, b)` (also `core::cmp::`, `cmp::`): the rows of the methods `a.min(b)` / `a.max(b)`
+# (core::cmp: `pub fn min<T: Ord>(v1: T, v2: T) -> T { v1.min(v2) }`); arguments evaluated left to right.
+# `module::f(args)` where the kernel entry maps `module` to a source file (`modules={"helpers": <file>}`): a call of the
+# kernel translated from the free function `f` of that file (the `use` / `mod` structure of the crate is NOT read: the
+# mapping is part of the kernel table, trusted like the table's file names).
+STRUCTURAL += [
+    ("std::cmp::min / std::cmp::max", "the `min` / `max` method rows of SEM on the two evaluated arguments"),
+    ("module::f(..) with `modules` in the kernel entry", "call of the kernel translated from free function f of the mapped file"),
+]
+_tr_call_base = Tr.tr_call
+
+
+def _tr_call_with_cmp_and_modules(self, e, env, expected, hint):
+    f = e["f"]
+    if f["k"] == "path":
+        segs, ln, args = f["segs"], e["line"], e["args"]
+        if segs[-1] in ("min", "max") and segs[:-1] in (["std", "cmp"], ["core", "cmp"], ["cmp"]) and len(args) == 2:
+            a, ta = self.tr(args[0], env, expected if isinstance(expected, str) else None)
+            b, tb = self.tr(args[1], env, ta if isinstance(ta, str) else None)
+            row = self.find("m", segs[-1], (ta, tb), ln, f"`{'::'.join(segs)}`")
+            return self.apply_row(row, [a, b], hint), self.res_type(row, (ta, tb))
+        mods = self.kern.get("modules", {})
+        if len(segs) == 2 and segs[0] in mods:
+            for kk in self.ctx.kernels:
+                if kk["fn"] == segs[1] and kk.get("impl") is None and kk["file"] == mods[segs[0]] \
+                        and "specialize" not in kk and "fragment" not in kk:
+                    kk = self.need_translated(kk, ln)
+                    if len(args) != len(kk["_params"]):
+                        raise U(ln, "wrong number of arguments")
+                    vals = [self.tr(x, env, pt) for x, (_, pt) in zip(args, kk["_params"])]
+                    return self.call_kernel(kk, vals, ln, hint)
+            raise U(ln, f"`{'::'.join(segs)}`: no kernel translated from `{segs[1]}` of {mods[segs[0]]}")
+    return _tr_call_base(self, e, env, expected, hint)
+
+
+Tr.tr_call = _tr_call_with_cmp_and_modules
+
 VAULT_STD = STD + "vault_network/vault.rs"
 VAULT_SRC = LH + "vault-network/vault/src/"
 TYPES["VaultConfig"] = dict(rust="Config", file=VAULT_STD, lean="VaultConfig", names={"VaultFee": "VaultFee", "Fee": "Fee"})
@@ -3345,6 +3412,20 @@ KERNELS += [
                        result=["asset_share"]),
          props=["C05"], model="WW.Vault.shareOf",
          theorem="WW.KernelsVault.gen_vault_share_query_amount_eq_model", module="WW.Props.Kernels.Vault"),
+]
+
+PAIR_COMMANDS = PN + "terraswap_pair/src/commands.rs"
+KERNELS += [
+    dict(lean="pair_provide_later_shares", file=PAIR_COMMANDS, fn="provide_liquidity",
+         fragment=dict(start=r"^\s*let amount = std::cmp::min\(", end=r"^\s*total_share,\s*$",
+                       end_plus=1,
+                       params=[("deposits", "[Uint128; 2]"), ("pools", "[Asset; 2]"), ("total_share", "Uint128"),
+                               ("slippage_tolerance", "Option<Decimal>"), ("pair_type", "PairType")],
+                       subst=[("pair_info.pair_type", "pair_type")],
+                       result=["amount"]),
+         types={"PairType": "PairType", "Asset": "Asset"}, modules={"helpers": PAIR_HELPERS},
+         props=["C01"], model="the later-deposit branch of WW.Pair.provideShares",
+         theorem="WW.KernelsPair.gen_pair_provide_later_shares_eq_model", module="WW.Props.Kernels.Pair"),
 ]
 
 # the generated file imports the map primitives next to the number primitives
